@@ -325,3 +325,85 @@ pub proof fn lemma_header_names_distinct()
     assert(ctype_name().len() == 12); assert(accept_name().len() == 6); assert(ua_name().len() == 10); assert(ae_name().len() == 15);
     assert(conn_name()[0] == 99u8); assert(ua_name()[0] == 117u8);
 }
+
+// ---- C07 round trip: every chunked body the client can write decodes, by the *reader's* spec `fut`, to exactly the payload
+/// `{:x}` of a chunk length is a valid chunk-size line for that length (hex formatting and parsing are inverse; 1..16 hex digits,
+/// no LF).  ASSUMED here; checked natively on every run by vp_native_hex_roundtrip (bounded).
+#[verifier::external_body]
+pub proof fn axiom_hex_line(n: nat)
+    requires n <= usize::MAX
+    ensures lemmas::valid_line(hex_lower(n), n)
+{ }
+#[verifier::external_body]
+pub proof fn axiom_ascii_literals()
+    ensures str_bytes("\r\n"@) == seq![13u8, 10u8], hex_lower(0) == seq![48u8]
+{ }
+pub mod chunk_lemmas {
+use vstd::prelude::*;
+use super::*;
+use super::lemmas::{enc, flat, crlf, valid_line, all_valid, wf_chunked};
+pub open spec fn size_lines(ps: Seq<Seq<u8>>) -> Seq<Seq<u8>> { ps.map_values(|p: Seq<u8>| hex_lower(p.len())) }
+pub open spec fn pieces_ok(ps: Seq<Seq<u8>>) -> bool { forall|i: int| 0 <= i < ps.len() ==> 0 < (#[trigger] ps[i]).len() <= usize::MAX }
+proof fn lemma_enc_snoc(cs: Seq<Seq<u8>>, ls: Seq<Seq<u8>>, c: Seq<u8>, l: Seq<u8>)
+    requires cs.len() == ls.len(),
+    ensures enc(cs.push(c), ls.push(l)) =~= enc(cs, ls) + (l + crlf() + c + crlf()),
+    decreases cs.len(),
+{
+    if cs.len() == 0 {
+        assert(cs.push(c).skip(1) =~= Seq::<Seq<u8>>::empty());
+        assert(ls.push(l).skip(1) =~= Seq::<Seq<u8>>::empty());
+        assert(enc(cs.push(c).skip(1), ls.push(l).skip(1)) =~= Seq::<u8>::empty());
+    } else {
+        assert(cs.push(c).skip(1) =~= cs.skip(1).push(c));
+        assert(ls.push(l).skip(1) =~= ls.skip(1).push(l));
+        lemma_enc_snoc(cs.skip(1), ls.skip(1), c, l);
+        assert(cs.push(c)[0] == cs[0] && ls.push(l)[0] == ls[0]);
+    }
+}
+proof fn lemma_flat_snoc(cs: Seq<Seq<u8>>, c: Seq<u8>)
+    ensures flat(cs.push(c)) =~= flat(cs) + c,
+    decreases cs.len(),
+{
+    if cs.len() == 0 {
+        assert(cs.push(c).skip(1) =~= Seq::<Seq<u8>>::empty());
+        assert(flat(cs.push(c).skip(1)) =~= Seq::<u8>::empty());
+    } else {
+        assert(cs.push(c).skip(1) =~= cs.skip(1).push(c));
+        lemma_flat_snoc(cs.skip(1), c);
+        assert(cs.push(c)[0] == cs[0]);
+    }
+}
+proof fn lemma_pieces_as_enc(ps: Seq<Seq<u8>>)
+    ensures enc_pieces(ps) =~= enc(ps, size_lines(ps)), flat_pieces(ps) =~= flat(ps),
+    decreases ps.len(),
+{
+    axiom_ascii_literals();
+    if ps.len() > 0 {
+        let d = ps.drop_last(); let c = ps.last();
+        lemma_pieces_as_enc(d);
+        assert(ps =~= d.push(c));
+        assert(size_lines(ps) =~= size_lines(d).push(hex_lower(c.len())));
+        lemma_enc_snoc(d, size_lines(d), c, hex_lower(c.len()));
+        lemma_flat_snoc(d, c);
+        assert(crlf() == crlf2());
+        assert(chunk_wire(c) =~= hex_lower(c.len()) + crlf() + c + crlf());
+    }
+}
+/// every sequence of non-empty writes through the ChunkedWriter followed by `close`, and then anything else on the wire, is
+/// decoded by the chunked *reader's* specification to exactly the concatenated payload, with a clean end
+// vp:lemma-props writer_roundtrip C07
+pub proof fn writer_roundtrip(ps: Seq<Seq<u8>>, tail: Seq<u8>)
+    requires pieces_ok(ps),
+    ensures fut(0, false, enc_pieces(ps) + last_chunk_wire() + tail) == (flat_pieces(ps), true),
+{
+    axiom_ascii_literals();
+    axiom_hex_line(0);
+    lemma_pieces_as_enc(ps);
+    let ls = size_lines(ps);
+    assert forall|i: int| 0 <= i < ps.len() implies (#[trigger] ps[i]).len() > 0 && valid_line(ls[i], ps[i].len()) by { axiom_hex_line(ps[i].len()); }
+    assert(all_valid(ps, ls));
+    let last = seq![48u8];
+    wf_chunked(ps, ls, last, tail);
+    assert(enc_pieces(ps) + last_chunk_wire() + tail =~= enc(ps, ls) + (last + crlf() + crlf() + tail));
+}
+}
